@@ -337,11 +337,11 @@ func checkPrefixLoops(p *Program, r *Result, rule string, pkgs ...string) {
 						}
 						switch {
 						case counting == nil:
-							r.note(rule, fname, construct, pos, "prefix "+types.ExprString(L)+" is not a counter of an earlier loop in this block: not judged")
+							r.abstain(rule, fname, construct, pos, "prefix "+types.ExprString(L)+" is not a counter of an earlier loop in this block")
 						case counting.coll == sh.coll && counting.filter == sh.filter && !strings.HasPrefix(sh.filter, "?"):
 							r.held(rule, fname, construct, pos, "the prefix counts a loop over "+sh.coll+" with the same membership filter ("+sh.filter+") as the emitting loop")
 						case strings.HasPrefix(sh.filter, "?") || strings.HasPrefix(counting.filter, "?"):
-							r.note(rule, fname, construct, pos, "filter form not recognised: not judged")
+							r.abstain(rule, fname, construct, pos, "filter form not recognised")
 						default:
 							r.violated(rule, fname, construct, pos, "the prefix counts elements of "+counting.coll+" filtered by "+orNone(counting.filter)+" but the loop emits elements of "+sh.coll+" filtered by "+orNone(sh.filter)+
 								"; the record announces a different number of bytes than it holds")
@@ -355,7 +355,7 @@ func checkPrefixLoops(p *Program, r *Result, rule string, pkgs ...string) {
 							r.violated(rule, fname, construct, pos, "the prefix is computed from "+cl+" elements but the loop emits "+sh.collN+
 								"; when the two differ the record announces a different number of bytes than it holds and readers mis-frame it")
 						default:
-							r.note(rule, fname, construct, pos, "prefix count "+cl+", loop over "+sh.coll+" filtered by "+orNone(sh.filter)+": form not judged")
+							r.abstain(rule, fname, construct, pos, "prefix count "+cl+", loop over "+sh.coll+" filtered by "+orNone(sh.filter)+": form not modelled")
 						}
 					}
 				}
